@@ -57,7 +57,7 @@ struct Config {
   X(heap_malloc_aligned) X(heap_zalloc_aligned) X(heap_calloc_aligned) X(heap_malloc_aligned_at) X(heap_zalloc_aligned_at) X(heap_calloc_aligned_at) \
   X(posix_memalign) X(memalign) X(aligned_alloc) X(valloc) X(pvalloc) \
   X(new_) X(new_nothrow) X(new_aligned) X(new_aligned_nothrow) X(new_n) X(heap_alloc_new) X(heap_alloc_new_n) \
-  X(strdup) X(strndup) X(heap_strdup) X(heap_strndup) \
+  X(strdup) X(strndup) X(heap_strdup) X(heap_strndup) X(wcsdup) X(mbsdup) X(dupenv_s) \
   X(realloc) X(reallocn) X(reallocf) X(reallocarray) X(reallocarr) X(rezalloc) X(recalloc) \
   X(heap_realloc) X(heap_reallocn) X(heap_reallocf) X(heap_rezalloc) X(heap_recalloc) \
   X(realloc_aligned) X(realloc_aligned_at) X(rezalloc_aligned) X(rezalloc_aligned_at) X(recalloc_aligned) X(recalloc_aligned_at) \
